@@ -66,7 +66,7 @@ class Case:
         return self.ds.dts.calibrate_single_ended(**kw)
 
 
-def random_params(rng, double, quick=True, **force):
+def _random_params(rng, double, quick=True, **force):
     nx = int(rng.integers(8, 15) if quick else rng.integers(8, 41))
     p = {
         "seed": int(rng.integers(1 << 31)), "double": double, "nx": nx, "nt": int(rng.integers(1, 4) if quick else rng.integers(1, 7)),
@@ -76,4 +76,17 @@ def random_params(rng, double, quick=True, **force):
         "var_mode": str(rng.choice(VAR_MODES)), "nmatch": 0,
     }
     p.update(force)
+    return p
+
+
+def random_params(rng, double, quick=True, tries=12, **force):
+    """random_params, redrawn until the generator really placed the requested number of splices (it drops a splice that cannot have
+    two reference locations on each side)"""
+    p = None
+    for _ in range(tries):
+        p = _random_params(rng, double, quick=quick, **force)
+        if not force.get("nta"):
+            return p
+        if len(Case(p).f.trans_att) == force.get("nta", p["nta"]):
+            return p
     return p
